@@ -11,7 +11,14 @@ THEOREMS = [f"NumbersModel.Props.C10.{t}" for t in (
     "col_roundtrip", "name_roundtrip", "col_name_injective", "col_name_wellformed", "col_name_length",
     "negative_rejected", "negative_col_rejected", "cell_roundtrip", "cell_roundtrip_gen", "col_gt_18277_rejected",
     "cell_name_injective", "range_collapses_iff", "col_offset_roundtrip", "col_strict_mono", "patterns_as_modelled",
-    "zeros_ok")]
+    "zeros_ok")] + [f"NumbersModel.Props.C10.Src.{t}" for t in (
+    # the same clauses over the definitions py2lean regenerates from xrefs.py on every run
+    "src_cell_roundtrip", "src_col_name", "src_col_name_injective", "src_col_name_surjective", "src_col_strict_mono",
+    "src_negative_rejected", "src_negative_col_rejected", "src_range_collapses_iff", "src_col_offset_roundtrip",
+    "src_col_name_fuel_suffices")] + [f"NumbersModel.Translated.{t}" for t in (
+    "xl_col_to_name_eq_model", "xl_rowcol_to_cell_eq_model", "xl_range_eq_model", "xl_cell_to_rowcol_eq_model",
+    "xl_col_to_offset_eq_model")]
+TRANSLATED_GROUPS = ("A1",)
 RULE = ("exhaustive: every column 0..18277 x col_abs through xl_col_to_name, every <=3-letter name through both "
         "decoders, every short string over {$,A,B,Z,a,0,1,9,:} through both regex-based parsers; rows: quick = "
         "0..2000 + powers of ten +-1 + 999990..1000010 + seeded, thorough = all 0..1000000; a case is non-trivial "
@@ -22,13 +29,21 @@ MANIFEST = {
             "col_roundtrip, name_roundtrip (bijection N <-> non-empty A..Z words), col_strict_mono (short-lex order), "
             "cell_roundtrip (all four $ combinations, columns <= ZZZ), cell_name_injective, range_collapses_iff, "
             "negative_rejected. The model is tied to the code by exhaustive correspondence over all 18278 columns, all "
-            "names, all short strings for the regex scanners, and (thorough) all 1,000,001 rows.",
+            "names, all short strings for the regex scanners, and (thorough) all 1,000,001 rows. In addition the five "
+            "functions are TRANSLATED from xrefs.py on every run (harness/py2lean.py -> Gen/TrA1.lean), each translated "
+            "definition is proved equal to its model function (Lemmas/TrA1.lean: xl_*_eq_model) and every clause is "
+            "restated over the translated definitions (Props.C10.Src.src_*), so the theorems are re-checked against what "
+            "the source says now; the translated definitions are themselves run against the real code on every "
+            "correspondence stream (trdriver).",
     "note": "Python `re` is replaced by a hand scanner (equivalence exercised exhaustively on strings of length <= 4/5 over "
             "a 9-symbol alphabet + every Unicode digit block); float division int((col-1)/26) is modelled as integer division "
             "(agreement checked on all columns reachable by 3-letter names and some larger).",
-    "technique": "Lean 4 proof (induction, omega/nlinarith) + exhaustive differential correspondence",
+    "technique": "Lean 4 proof (induction, omega/nlinarith) over a model proved equal to definitions regenerated from the Python source by a translator + exhaustive differential correspondence",
 }
-ASSUMPTIONS = ["Python `re` is replaced by a hand scanner in the model; equivalence is exercised exhaustively on short strings",
+ASSUMPTIONS = ["py2lean's reading of the Python subset it supports (harness/py2lean.py docstring, Py/Trans.lean): int((col-1)/26) as exact "
+               "truncating division (true for col < 2^53), the two regex matches as the hand-derived group scanners; validated on every run by "
+               "running the translated definitions against the real functions on all correspondence streams",
+               "Python `re` is replaced by a hand scanner in the model; equivalence is exercised exhaustively on short strings",
                "`int()` on Unicode Nd digits evaluates each block of ten as 0..9 (generated and re-checked each run)"]
 
 
@@ -72,7 +87,7 @@ def run(ctx: Ctx):
             out.append(o)
             if 0 <= c <= 18277 and not a:
                 names[c] = X.xl_col_to_name(c)
-    ctx.correspond("xl_col_to_name: all columns -3..18317 x col_abs", req, out, exhaustive=True)
+    ctx.correspond("xl_col_to_name: all columns -3..18317 x col_abs", req, out, exhaustive=True, translated=True)
 
     # property oracle on the implementation (independent of the model)
     prev = None
@@ -112,7 +127,7 @@ def run(ctx: Ctx):
         if o != f"ok {c}":
             ctx.violation("tokenizer-col-index", f"col_to_index({names[c]!r}) -> {o}, expected {c}", {"s": names[c]})
     ctx.correspond("decoders: every name of <=3 letters (xl_col_to_offset with/without $, tokenizer col_to_index)",
-                   req, out, exhaustive=True)
+                   req, out, exhaustive=True, translated=True)
 
     # --- rows ------------------------------------------------------------------
     if ctx.quick:
@@ -142,7 +157,7 @@ def run(ctx: Ctx):
         elif not o.startswith("err IndexError"):
             ctx.violation("negative-row-named", f"xl_rowcol_to_cell({r},{c}) -> {o}", {"row": r, "col": c})
     ctx.correspond("xl_rowcol_to_cell / xl_cell_to_rowcol over rows" + (" (all 0..1000000)" if not ctx.quick else ""),
-                   req, out, exhaustive=not ctx.quick)
+                   req, out, exhaustive=not ctx.quick, translated=True)
 
     # all four $ combinations x negative corners
     req, out = [], []
@@ -152,7 +167,7 @@ def run(ctx: Ctx):
         out.append(o)
         if (r < 0 or c < 0) and o != "err IndexError":
             ctx.violation("negative-not-rejected", f"xl_rowcol_to_cell({r},{c}) -> {o}", {"row": r, "col": c})
-    ctx.correspond("corner grid incl. negatives x 4 dollar combinations", req, out, exhaustive=True)
+    ctx.correspond("corner grid incl. negatives x 4 dollar combinations", req, out, exhaustive=True, translated=True)
 
     # --- malformed / edge strings through both regex parsers (scanner == re) -----
     alphabet = "$ABZa019:"
@@ -172,7 +187,7 @@ def run(ctx: Ctx):
         req.append(f"a1 coloff {enc_text(s)}")
         out.append(_call(X.xl_col_to_offset, s, fmt=str))
     ctx.correspond(f"all strings of length <= {maxlen} over '{alphabet}' + edge strings + every Nd block through both parsers",
-                   req, out, exhaustive=True)
+                   req, out, exhaustive=True, translated=True)
 
     # --- ranges -------------------------------------------------------------------
     n = 50_000 if ctx.quick else 1_000_000
@@ -196,7 +211,7 @@ def run(ctx: Ctx):
             s = X.xl_range(r1, c1, r2, c2)
             if (":" not in s) != ((r1, c1) == (r2, c2)):
                 ctx.violation("range-collapse", f"xl_range{(r1, c1, r2, c2)} = {s!r}", {"args": [r1, c1, r2, c2]})
-    ctx.correspond("xl_range corners (seeded)", req, out)
+    ctx.correspond("xl_range corners (seeded)", req, out, translated=True)
 
 
 def replay(data):
